@@ -2,7 +2,7 @@
 Decision logic of the Ninja driver (`lib/Commands/NinjaBuildCommand.cpp`) as pure functions.
 
 * `BuildValue` (l.154-340): kind, command hash, output infos.
-* `commandIsResultValid` = `buildCommandIsResultValid` (l.1620-1651, with the phony-alias repair F31).
+* `commandIsResultValid` = `buildCommandIsResultValid` (l.1620-1651, with the phony-alias repair F37).
 * `requests` = `NinjaCommandTask::start` (explicit / implicit inputs requested, order-only via `mustFollow`).
 * `provide` = `provideValue` (skip on failed / missing input, `canUpdateIfNewer`, `newestModTime`).
 * `inputsAvailable` = the decision chain of `inputsAvailable` (cancelled, phony, update-if-newer, simulate, skip, run).
